@@ -102,6 +102,7 @@ type Plan struct {
 	DropResp   map[string]bool // kind → response lost (responder acted)
 	SyncLimit  int             // >0: requester's sync limit for this exchange
 	FFFrom     int             // k+1: only node k answers fast-forward requests (0: everybody)
+	ForceOK    bool            // a hostile responder: the (mutated) response is returned without the responder's error
 	MutateReq  func(kind string, args interface{}) interface{}
 	MutateResp func(kind string, resp interface{}) interface{}
 	// Hook is called at the lock-release points: phase "pre" (before the
@@ -462,6 +463,9 @@ func (c *Cluster) deliver(from int, target string, kind string, args interface{}
 	}
 	if plan != nil && plan.MutateResp != nil && out != nil {
 		out = plan.MutateResp(kind, out)
+	}
+	if plan != nil && plan.ForceOK {
+		return out, nil
 	}
 	return out, r.Error
 }
@@ -868,4 +872,31 @@ func (c *Cluster) crashNode(i int) {
 		defer func() { recover() }()
 		st.Close()
 	}()
+}
+
+// ProcessRPC delivers a harness-built request to node i's real processRPC and
+// returns the response (a step with a recover boundary where the real code has none).
+func (c *Cluster) ProcessRPC(i int, name string, cmd interface{}) (resp interface{}, rerr error) {
+	c.guard(name, func() error {
+		ch := make(chan net.RPCResponse, 1)
+		c.active = i
+		c.Nodes[i].Node.VProcessRPC(net.RPC{Command: cmd, RespChan: ch})
+		select {
+		case r := <-ch:
+			resp, rerr = r.Response, r.Error
+		default:
+			rerr = fmt.Errorf("no response")
+		}
+		return nil
+	})
+	return
+}
+
+// Join runs the real Node.join of node i (state Joining) against the transport.
+func (c *Cluster) Join(i int, plan *Plan) error {
+	return c.guard(fmt.Sprintf("Join(%d)", i), func() error {
+		c.active = i
+		c.plan = plan
+		return c.Nodes[i].Node.VJoin()
+	})
 }
